@@ -1,9 +1,9 @@
 SPECIFICATION FairSpec
 CONSTANTS
-  MaxInputs = 1
+  MaxInputs = 2
   MaxStages = 3
   Cap = 1
-  Modes = {"link"}
+  Modes = {"link", "stdout"}
   FailEnds = {"exit1_before_read", "exit1_mid_write", "exit1_after", "signal", "spawn_fails"}
   LinkEnds = {"exit0", "exit1_after", "signal", "spawn_fails"}
   MaxFail = 1
